@@ -805,7 +805,10 @@ impl<'a> Sim<'a> {
                             *eng = rebuilt;
                         }
                         1 => {
-                            let rebuilt = Engine { condition: eng.condition.clone(), voices: eng.voices.clone() };
+                            // the condition is moved out (a default one is left behind for a moment) and handed to
+                            // Engine::new; no struct literal: a private field added to Engine must not break this harness
+                            let c = std::mem::take(&mut eng.condition);
+                            let rebuilt = Engine::new(eng.voices.clone(), c);
                             *eng = rebuilt;
                         }
                         _ => {
@@ -961,6 +964,113 @@ impl<'a> Sim<'a> {
                 self.stats.probe("reload_voice_set");
                 self.nontrivial = true;
                 self.note(0x18 + *e as u64);
+                Ok(())
+            }
+            Op::ReloadBad { e, kind } => {
+                let usable = self.engines.get(*e).and_then(|x| x.as_ref()).map(|s| !s.eng.is_shared()).unwrap_or(false);
+                if !usable || !matches!(self.prop, Prop::C19 | Prop::C20) {
+                    self.stats.noop_ops += 1;
+                    return Ok(());
+                }
+                let refs = self.engines[*e].as_ref().unwrap().voices.clone();
+                let bad = ["GAMMA=two", "LN_GAIN=yes", "ALPHA=0,55"][*kind as usize % 3];
+                let mut arcs: Vec<Arc<Voice>> = Vec::new();
+                let mut alphas: Vec<f64> = Vec::new();
+                for v in &refs {
+                    let (a, _) = self.env.voice(v).map_err(|e| Stop::Harness(HarnessError(e)))?;
+                    let mut c: Voice = (*a).clone();
+                    if let Some(sm) = c.stream_models.first_mut() {
+                        for o in &sm.metadata.option {
+                            if let Some(x) = o.strip_prefix("ALPHA=").and_then(|x| x.parse::<f64>().ok()) {
+                                alphas.push(x);
+                            }
+                        }
+                        sm.metadata.option.push(bad.to_string());
+                    }
+                    arcs.push(Arc::new(c));
+                }
+                let vs = match guarded(|| VoiceSet::new(arcs)) {
+                    Ok(Ok(vs)) => vs,
+                    _ => return Err(Stop::Harness(HarnessError("voices that differ from valid ones only by one more option string were not combinable".into()))),
+                };
+                let (new_sf, new_fp) = (vs.global_metadata().sampling_frequency, vs.global_metadata().frame_period);
+                let slot = self.engines[*e].as_mut().unwrap();
+                self.stats.api_calls += 1;
+                let r = {
+                    let eng = slot.eng.owned_mut().unwrap();
+                    guarded(|| eng.condition.load_model(&vs).map_err(|e| e.to_string()))
+                };
+                if let Some(t) = slot.twin.as_mut() {
+                    let _ = guarded(|| t.condition.load_model(&vs).map_err(|e| e.to_string()));
+                }
+                self.note(0x7100 + (*e * 4) as u64 + *kind as u64 % 3);
+                let oracle = if self.prop == Prop::C19 { "C19.weights-model" } else { "C20.setter-model" };
+                match r {
+                    Ok(Err(_)) => self.stats.probe("failed_load_model"),
+                    Ok(Ok(())) => self.stats.probe("malformed_option_accepted_by_load_model"),
+                    Err(_) => self.stats.probe("load_model_panicked_on_malformed_option"),
+                }
+                // whatever happened: each setting is the old one or the one a successful load installs
+                let slot = self.engines[*e].as_mut().unwrap();
+                let old = slot.model.clone();
+                let n = old.nvoices;
+                let avg = 1.0f64 / n as f64;
+                let c = &slot.eng.condition;
+                let seen = guarded(|| {
+                    let ns = old.nstream();
+                    let iw = c.get_interporation_weight();
+                    (
+                        c.get_sampling_frequency(),
+                        c.get_fperiod(),
+                        (0..ns).map(|i| c.get_msd_threshold(i)).collect::<Vec<f64>>(),
+                        (0..ns).map(|i| c.get_gv_weight(i)).collect::<Vec<f64>>(),
+                        c.get_alpha(),
+                        (c.get_speed(), c.get_beta(), c.get_additional_half_tone(), c.get_phoneme_alignment_flag(), c.get_volume()),
+                        iw.get_duration().to_vec(),
+                        (0..ns).map(|i| iw.get_parameter(i).to_vec()).collect::<Vec<Vec<f64>>>(),
+                        (0..ns).map(|i| iw.get_gv(i).to_vec()).collect::<Vec<Vec<f64>>>(),
+                    )
+                });
+                let (sf, fp, msd, gvw, alpha, rest, wdur, wpar, wgv) = match seen {
+                    Ok(x) => x,
+                    Err(p) => return Err(self.viol(oracle, "getter-panicked", format!("after a failed load_model a getter panicked: {}", p.msg))),
+                };
+                let bad_field = |name: &str, got: String| Stop::Violation(Violation { oracle, class: format!("after-failed-load:{}", name), detail: format!("after a load_model that failed on option {:?}, {} reads {} - neither its previous value nor the default of a successful load", bad, name, got), op_index: self.op_index });
+                if sf != old.sf && sf != new_sf {
+                    return Err(bad_field("sampling_frequency", sf.to_string()));
+                }
+                if fp != old.fp && fp != new_fp {
+                    return Err(bad_field("fperiod", fp.to_string()));
+                }
+                for i in 0..old.nstream() {
+                    if !same(msd[i], old.msd[i]) && !same(msd[i], 0.5) {
+                        return Err(bad_field("msd_threshold", format!("[{}]={:e}", i, msd[i])));
+                    }
+                    if !same(gvw[i], old.gvw[i]) && !same(gvw[i], 1.0) {
+                        return Err(bad_field("gv_weight", format!("[{}]={:e}", i, gvw[i])));
+                    }
+                }
+                if !same(alpha, old.alpha) && !alphas.iter().any(|a| same(*a, alpha)) {
+                    return Err(bad_field("alpha", format!("{:e}", alpha)));
+                }
+                if !same(rest.0, old.speed) || !same(rest.1, old.beta) || !same(rest.2, old.half) || rest.3 != old.align || rest.4.to_bits() != old.vol_seen {
+                    return Err(bad_field("speed/beta/half_tone/alignment/volume", format!("{:?}", rest)));
+                }
+                let wok = |got: &Vec<f64>, was: &Vec<f64>| got.len() == was.len() && (got.iter().zip(was).all(|(a, b)| a.to_bits() == b.to_bits()) || got.iter().all(|a| a.to_bits() == avg.to_bits()));
+                if !wok(&wdur, &old.wdur) || (0..old.nstream()).any(|i| !wok(&wpar[i], &old.wpar[i]) || !wok(&wgv[i], &old.wgv[i])) {
+                    return Err(bad_field("interpolation weights", format!("{:?}", wdur)));
+                }
+                // adopt what was observed: which of the two it is, is the implementation's business
+                let m = &mut slot.model;
+                m.sf = sf;
+                m.fp = fp;
+                m.msd = msd;
+                m.gvw = gvw;
+                m.alpha = alpha;
+                m.wdur = wdur;
+                m.wpar = wpar;
+                m.wgv = wgv;
+                self.nontrivial = true;
                 Ok(())
             }
             Op::DropEngine { e } => {
@@ -1470,6 +1580,9 @@ impl<'a> Sim<'a> {
             if frames >= 1000 {
                 self.stats.probe("generator_1000_frames_or_more");
             }
+            if frames >= 65536 {
+                self.stats.probe("generator_65536_frames_or_more");
+            }
             {
                 let c = &self.engines[e].as_ref().unwrap().eng.condition;
                 if c.get_phoneme_alignment_flag() {
@@ -1617,7 +1730,9 @@ impl<'a> Sim<'a> {
             self.stats.probe("finish_fresh");
         } else if cursor < frames {
             self.stats.probe("finish_after_partial");
-            if cursor >= 8192 {
+            if cursor >= 65536 {
+                self.stats.probe("finish_after_65536_or_more_steps");
+            } else if cursor >= 8192 {
                 self.stats.probe("finish_after_8192_or_more_steps");
             } else if cursor >= 4096 {
                 self.stats.probe("finish_after_4096_or_more_steps");
